@@ -154,6 +154,9 @@ func lastOp(h string) string {
 	if h == "" {
 		return "build"
 	}
+	if len(h) > 4 && h[:5] == "build" {
+		return "build-again"
+	}
 	switch h[len(h)-1] {
 	case 'A':
 		return "append"
@@ -216,9 +219,50 @@ func c16Run(c *core.C) {
 		c16CheckToken(c, tok.B, id, done, right, wrong, lookups)
 	}
 	c16SharedSource(c, priv, right, wrong, id, lookups)
+	c16BuilderAgain(c, priv, right, wrong, id, lookups)
 	if c.Idx%97 == 0 {
 		c.Sample(map[string]any{"kind": "key-id history", "id": idText(id), "history": hist, "lookups_per_token": len(lookups)})
 	}
+}
+
+// c16BuilderAgain: ONE root builder created with the identifier issues several tokens (Build,
+// Build again, add a fact, Build again): every one of them carries the identifier given to the
+// builder. A builder may refuse to be built again with an error.
+func c16BuilderAgain(c *core.C, priv ed25519.PrivateKey, right, wrong ed25519.PublicKey, id *uint32, lookups []c16Lookup) {
+	rng := lib.NewDetRand(c.Seed, fmt.Sprintf("c16-again-%d", c.Idx))
+	var bld biscuit.Builder
+	if id != nil {
+		bld = biscuit.NewBuilder(priv, biscuit.WithRNG(rng), biscuit.WithRootKeyID(*id))
+	} else {
+		bld = biscuit.NewBuilder(priv, biscuit.WithRNG(rng))
+	}
+	_ = bld.AddAuthorityFact(ast.P("right", ast.Str("file1"), ast.Str("read")).LibFact())
+	for k := 0; k < 3; k++ {
+		if k == 2 {
+			_ = bld.AddAuthorityFact(ast.P("right", ast.Str("file2"), ast.Str("read")).LibFact())
+		}
+		var b *biscuit.Biscuit
+		var err error
+		if pi := lib.Try(func() { b, err = bld.Build() }); pi != nil {
+			c.Violate("build-panic/"+pi.Site, pi.Msg, map[string]any{"id": idText(id), "build_number": k + 1})
+			return
+		}
+		if err != nil {
+			c.Count("root_builder_rebuild_refused", 1)
+			return
+		}
+		hist := fmt.Sprintf("build number %d on one builder", k+1)
+		c16CheckToken(c, b, id, hist, right, wrong, lookups[:9])
+		if nb, err := biscuit.Unmarshal(mustSerialize(b)); err == nil {
+			c16CheckToken(c, nb, id, hist+", reload", right, wrong, lookups[:3])
+		}
+		c.Count("same_builder_tokens", 1)
+	}
+}
+
+func mustSerialize(b *biscuit.Biscuit) []byte {
+	ser, _ := b.Serialize()
+	return ser
 }
 
 // c16SharedSource: ONE key source value is used for a sequence of tokens with different
@@ -280,8 +324,9 @@ func c16SharedSource(c *core.C, priv ed25519.PrivateKey, right, wrong ed25519.Pu
 
 func init() {
 	core.Register(&core.Prop{
-		ID:    "C16",
-		Level: "exploration",
+		ID:        "C16",
+		MinCounts: map[string]int{"same_builder_tokens": 500, "shared_source_sequences": 4000},
+		Level:     "exploration",
 		Rule: fmt.Sprintf("bounded-exhaustive: %d identifiers {absent,0,1,123,2^31,2^32-1} x all %d legal derivation histories over {Append,Seal,Reload} of length <=4 x 9 key maps x 3 defaults = 27 lookups on EVERY token of the history (complete in both tiers); thorough adds random identifiers and longer histories. Each lookup is decided by a reference selection function (exactly the key registered under the token's id, or the default when it has none; otherwise ErrNoPublicKeyAvailable); RootKeyID() of every derived token is compared with the id given at creation. ", len(c16IDs), len(c16Histories)) +
 			"Non-trivial = distinct (id, history prefix, lookup) triples.",
 		Assumptions: []string{"ed25519 signatures made by another key do not verify"},
